@@ -35,9 +35,10 @@ pub const BOARDS: [&str; 4] = [
 ];
 
 /// Compares the outcome of the real importer with the spec's reading of the same bytes.
-fn check_import(text: &[u8], witness: bool) {
+fn check_import(text: &[u8], f: [(usize, usize); 4], witness: bool) {
     let s = unsafe { std::str::from_utf8_unchecked(text) };
-    let want = spec::parse_fen(text);
+    // the field boundaries are concrete in every harness (symbolic bytes are never blanks)
+    let want = spec::parse_fen_fields(&text[f[0].0..f[0].1], &text[f[1].0..f[1].1], &text[f[2].0..f[2].1], &text[f[3].0..f[3].1]);
     let got = Game::new(s);
     match (&want, &got) {
         (Some(p), Ok(game)) => {
@@ -97,14 +98,19 @@ pub fn import_fields_body(board: usize, ls: usize, lc: usize, le: usize, counter
         n += 1;
         i += 1;
     }
+    let mut f = [(0usize, b.len()); 4];
+    let mut fi = 1;
     for len in [ls, lc, le] {
         n += 1; // the blank
+        let start = n;
         let mut k = 0;
         while k < len {
             buf[n] = any_visible_ascii();
             n += 1;
             k += 1;
         }
+        f[fi] = (start, n);
+        fi += 1;
     }
     if counters {
         for ch in [b' ', b'0', b' ', b'1'] {
@@ -112,7 +118,7 @@ pub fn import_fields_body(board: usize, ls: usize, lc: usize, le: usize, counter
             n += 1;
         }
     }
-    check_import(&buf[..n], witness);
+    check_import(&buf[..n], f, witness);
 }
 
 /// the last `m` bytes of the board field symbolic: `<prefix><m bytes> w - -`
@@ -132,11 +138,12 @@ pub fn import_tail_body(prefix: &str, m: usize, witness: bool) {
         n += 1;
         k += 1;
     }
+    let bend = n;
     for ch in [b' ', b'w', b' ', b'-', b' ', b'-'] {
         buf[n] = ch;
         n += 1;
     }
-    check_import(&buf[..n], witness);
+    check_import(&buf[..n], [(0, bend), (bend + 1, bend + 2), (bend + 3, bend + 4), (bend + 5, bend + 6)], witness);
 }
 
 macro_rules! fen_instance {
@@ -150,6 +157,41 @@ macro_rules! fen_instance {
     };
 }
 
+/// `<board> <side> <castling> <ep>` with the given concrete fields, of which the bytes whose
+/// index (counted over the three fields) has its bit set in `mask` are symbolic.
+pub fn import_mask_body(board: usize, side: &str, castling: &str, ep: &str, mask: u32, witness: bool) {
+    let mut buf = [b' '; 96];
+    let b = BOARDS[board].as_bytes();
+    let mut n = 0;
+    let mut i = 0;
+    while i < b.len() {
+        buf[n] = b[i];
+        n += 1;
+        i += 1;
+    }
+    let mut f = [(0usize, b.len()); 4];
+    let mut fi = 1;
+    let mut bit = 0;
+    for field in [side, castling, ep] {
+        n += 1;
+        let start = n;
+        let fb = field.as_bytes();
+        let mut k = 0;
+        while k < fb.len() {
+            buf[n] = if mask & (1 << bit) != 0 { any_visible_ascii() } else { fb[k] };
+            bit += 1;
+            n += 1;
+            k += 1;
+        }
+        f[fi] = (start, n);
+        fi += 1;
+    }
+    check_import(&buf[..n], f, witness);
+}
+
+fen_instance!(c17_probe_concrete, import_mask_body, 0, "w", "-", "-", 0, false);
+fen_instance!(c17_probe_side, import_mask_body, 0, "w", "-", "-", 0b001, false);
+fen_instance!(c17_probe_ep2, import_mask_body, 1, "b", "KQkq", "d3", 0b1100000, false);
 fen_instance!(c17_fields_b0_1_1_1, import_fields_body, 0, 1, 1, 1, false, false);
 fen_instance!(c17_fields_b0_1_1_2, import_fields_body, 0, 1, 1, 2, false, false);
 fen_instance!(c17_fields_b0_2_1_1, import_fields_body, 0, 2, 1, 1, false, false);
